@@ -28,7 +28,16 @@ type Prop struct {
 
 var registry = map[string]*Prop{}
 
-func register(p *Prop) { registry[p.ID] = p }
+func register(p *Prop) {
+	// case kinds shared by several checks
+	if p.Replay == nil {
+		p.Replay = map[string]func(e *Env, raw json.RawMessage){}
+	}
+	if _, ok := p.Replay["yaml-form"]; !ok {
+		p.Replay["yaml-form"] = func(e *Env, raw json.RawMessage) { yamlFormEval(e, decode[yamlFormCase](raw)) }
+	}
+	registry[p.ID] = p
+}
 
 // Get returns the check for id.
 func Get(id string) *Prop { return registry[id] }
